@@ -120,6 +120,23 @@ def main():
     if not a.patch:
         with open(os.path.join(outd, "RESULTS-%s.json" % pid if a.seeded else "RESULTS.json"), "w") as f:
             json.dump({"property": pid, "tier": a.tier, "seed": a.seed, "results": results}, f, indent=1)
+    else:
+        # single patches: merge into the results file they belong to (entry replaced by name), so the tables
+        # generated from these files do not go stale when only some changes are re-run
+        for p, r in zip(patches, results):
+            if os.path.basename(p) == "patch.diff" and os.path.dirname(os.path.dirname(p)) == os.path.join(VERIF, "seeded"):
+                rf = os.path.join(VERIF, "seeded", "RESULTS-%s.json" % pid)
+            elif os.path.dirname(p) == os.path.join(VERIF, "mutants", pid):
+                rf = os.path.join(VERIF, "mutants", pid, "RESULTS.json")
+            else:
+                continue
+            d = json.load(open(rf)) if os.path.exists(rf) else {"property": pid, "tier": a.tier, "seed": a.seed, "results": []}
+            r = dict(r, tier=a.tier, seed=a.seed)
+            base = r["mutant"].replace("(ported)", "")
+            d["results"] = [x for x in d["results"] if x["mutant"].replace("(ported)", "") != base] + [r]
+            d["results"].sort(key=lambda x: x["mutant"])
+            with open(rf, "w") as f:
+                json.dump(d, f, indent=1)
     return 0 if caught == len(results) else 1
 
 
